@@ -1,0 +1,120 @@
+//go:build verif
+
+package connectconformance
+
+// Contracts for the deductive verifier in /verif (comment-only file; no code).
+
+//@ guarded testResults: outcomes, traces, serverSideband by mu
+//@ monitor testResults by mu: self.outcomes != nil && self.serverSideband != nil
+
+// Immutable part of a results object (set by newResults, never written again).
+//@ spec wfResults(r *testResults) bool = r != nil && r.knownFailing != nil && r.knownFlaky != nil
+
+//@ func newResults
+//@   requires knownFailing != nil && knownFlaky != nil
+//@   ensures wfResults(result) && fresh(result) && result.outcomes != nil && result.serverSideband != nil
+//@   ensures result.totalTestCount == totalTestCount && len(result.outcomes) == 0 && len(result.serverSideband) == 0
+
+// specBad(o): the outcome counts against a successful run.
+//  - a case that could not be run or set up always does, whatever its marking;
+//  - a known-failing case must fail, a known-flaky one may do either,
+//    an unmarked one must pass.
+//@ spec specBad(o testOutcome) bool =
+//@    errorsAs(o.actualFailure, *couldNotRunError) ? true :
+//@    (o.setupError ? o.actualFailure != nil :
+//@    (o.knownFailing ? o.actualFailure == nil :
+//@    (o.knownFlaky ? false : o.actualFailure != nil)))
+
+//@ func indent
+//@   trusted
+//@   modifies nothing
+
+//@ func (*testResults).fetchTrace
+//@   trusted
+//@   requires r != nil
+//@   modifies nothing
+//@   //# assumption: the goroutine it spawns only touches r.traces, under r.mu (checked on fetchTrace$1)
+
+//@ func (*testResults).setOutcomeLocked
+//@   requires wfResults(r) && held[r.mu] && r.outcomes != nil
+//@   modifies atomicI32, map[string]testOutcome @ r.outcomes
+//@   ensures has(r.outcomes, testCase)
+//@   ensures r.outcomes[testCase].actualFailure == err && r.outcomes[testCase].setupError == setupError
+//@   ensures r.outcomes[testCase].knownFailing == nameGlobs(r.knownFailing, testCase)
+//@   ensures r.outcomes[testCase].knownFlaky == nameGlobs(r.knownFlaky, testCase)
+//@   ensures forall k string :: k != testCase ==> has(r.outcomes, k) == old(has(r.outcomes, k)) && r.outcomes[k] == old(r.outcomes[k])
+//@   ensures len(r.outcomes) == old(len(r.outcomes)) + (old(has(r.outcomes, testCase)) ? 0 : 1)
+
+//@ func (*testResults).setOutcome
+//@   requires wfResults(r) && !held[r.mu]
+//@   modifies atomicI32, held, map[string]testOutcome
+//@   ensures !held[r.mu]
+
+//@ func (*testResults).recordSideband
+//@   requires wfResults(r) && !held[r.mu]
+//@   modifies held, map[string]string
+//@   ensures !held[r.mu]
+
+//@ func (*testResults).failed
+//@   requires wfResults(r) && !held[r.mu] && err != nil
+//@   modifies atomicI32, held, map[string]testOutcome
+//@   ensures !held[r.mu]
+
+// failedToStart: every case of the batch is recorded as a setup error.
+//@ func (*testResults).failedToStart
+//@   requires wfResults(r) && !held[r.mu]
+//@   requires forall i int :: 0 <= i && i < len(testCases) ==> testCases[i] != nil && testCases[i].Request != nil
+//@   modifies atomicI32, held, map[string]testOutcome
+//@   ensures !held[r.mu]
+//@   ensures forall i int :: 0 <= i && i < len(testCases) ==>
+//@      has(r.outcomes, testCases[i].Request.TestName) && r.outcomes[testCases[i].Request.TestName].setupError &&
+//@      r.outcomes[testCases[i].Request.TestName].actualFailure == err
+//@   loop 0: invariant held[r.mu] && r.outcomes != nil
+//@           invariant forall i int :: 0 <= i && i <= rangeindex ==>
+//@      has(r.outcomes, testCases[i].Request.TestName) && r.outcomes[testCases[i].Request.TestName].setupError &&
+//@      r.outcomes[testCases[i].Request.TestName].actualFailure == err
+
+// failRemaining: afterwards every case of the batch has an outcome.
+//@ func (*testResults).failRemaining
+//@   requires wfResults(r) && !held[r.mu]
+//@   requires forall i int :: 0 <= i && i < len(testCases) ==> testCases[i] != nil && testCases[i].Request != nil
+//@   modifies atomicI32, held, map[string]testOutcome
+//@   ensures !held[r.mu]
+//@   ensures forall i int :: 0 <= i && i < len(testCases) ==> has(r.outcomes, testCases[i].Request.TestName)
+//@   loop 0: invariant held[r.mu] && r.outcomes != nil
+//@           invariant forall i int :: 0 <= i && i <= rangeindex ==> has(r.outcomes, testCases[i].Request.TestName)
+
+// Peer feedback is merged before reporting: every case with feedback ends up with a
+// failure, nothing else changes.
+//@ func (*testResults).processSidebandInfoLocked
+//@   requires wfResults(r) && held[r.mu] && r.outcomes != nil
+//@   modifies atomicI32, map[string]testOutcome @ r.outcomes
+//@   ensures forall k string :: has(r.serverSideband, k) ==> has(r.outcomes, k) && r.outcomes[k].actualFailure != nil
+//@   ensures forall k string :: has(r.serverSideband, k) && old(has(r.outcomes, k)) ==>
+//@       r.outcomes[k].setupError == old(r.outcomes[k].setupError) && r.outcomes[k].knownFailing == old(r.outcomes[k].knownFailing) &&
+//@       r.outcomes[k].knownFlaky == old(r.outcomes[k].knownFlaky)
+//@   ensures forall k string :: !has(r.serverSideband, k) ==> has(r.outcomes, k) == old(has(r.outcomes, k)) && r.outcomes[k] == old(r.outcomes[k])
+//@   loop 0: invariant forall k string :: has(r.serverSideband, k) && rangeidx(k) < rangepos ==> has(r.outcomes, k) && r.outcomes[k].actualFailure != nil
+//@           invariant forall k string :: has(r.serverSideband, k) && rangeidx(k) < rangepos && old(has(r.outcomes, k)) ==>
+//@       r.outcomes[k].setupError == old(r.outcomes[k].setupError) && r.outcomes[k].knownFailing == old(r.outcomes[k].knownFailing) &&
+//@       r.outcomes[k].knownFlaky == old(r.outcomes[k].knownFlaky)
+//@           invariant forall k string :: !(has(r.serverSideband, k) && rangeidx(k) < rangepos) ==> has(r.outcomes, k) == old(has(r.outcomes, k)) && r.outcomes[k] == old(r.outcomes[k])
+
+//@ spec isCNR(o testOutcome) bool = errorsAs(o.actualFailure, *couldNotRunError)
+
+// The run succeeds exactly when every selected case produced an outcome and every
+// outcome met its expectation (after peer feedback has been merged in).
+//@ func (*testResults).report
+//@   requires wfResults(r) && !held[r.mu] && printer != nil
+//@   requires 0 <= r.totalTestCount && r.totalTestCount <= 4611686018427387904 //# resource assumption: fewer than 2^62 selected cases
+//@   modifies held, atomicI32, map[string]testOutcome, map[string]string, testResults.serverSideband
+//@   ensures !held[r.mu]
+//@   ensures @verdict result == ((forall k string :: has(r.outcomes, k) ==> !specBad(r.outcomes[k])) && len(r.outcomes) >= r.totalTestCount)
+//@   loop 0: invariant held[r.mu] && r.outcomes != nil && len(testCaseNames) == rangepos
+//@           invariant forall i int :: 0 <= i && i < rangepos ==> testCaseNames[i] == rangekey(i)
+//@   loop 1: invariant held[r.mu] && r.outcomes != nil && failed >= 0 && couldNotRun >= 0 && succeeded >= 0 && expectedFailures >= 0
+//@           invariant @totals succeeded + failed + expectedFailures + couldNotRun == rangeindex + 1 + (r.totalTestCount > len(testCaseNames) ? r.totalTestCount - len(testCaseNames) : 0)
+//@           invariant failed == 0 ==> (forall i int :: 0 <= i && i <= rangeindex ==> isCNR(r.outcomes[testCaseNames[i]]) || !specBad(r.outcomes[testCaseNames[i]]))
+//@           invariant failed > 0 ==> !(forall i int :: 0 <= i && i <= rangeindex ==> isCNR(r.outcomes[testCaseNames[i]]) || !specBad(r.outcomes[testCaseNames[i]]))
+//@           invariant couldNotRun == 0 ==> r.totalTestCount <= len(testCaseNames) && (forall i int :: 0 <= i && i <= rangeindex ==> !isCNR(r.outcomes[testCaseNames[i]]))
+//@           invariant couldNotRun > 0 ==> !(r.totalTestCount <= len(testCaseNames) && (forall i int :: 0 <= i && i <= rangeindex ==> !isCNR(r.outcomes[testCaseNames[i]])))
